@@ -702,7 +702,7 @@ PROPS = {
                 assumptions=["the race detector only sees the program's own happens-before edges (gates are raw syscalls, no inlining so reports name the accessing function)",
                              "interleavings are explored at scheduling points only; what happens between two points is covered by the race detector, not by schedule search",
                              "sync.Pool inside chi/net/http/fmt keeps its per-P behaviour (no overlay): it can add happens-before edges and so hide, never invent, a race"]),
-    "C02": dict(engine="gen", race=False, quick_designs=64, thorough_designs=64, quick_runs=16000, thorough_runs=120000, quick_budget=120, thorough_budget=1500, thorough_batches=8,
+    "C02": dict(engine="gen", race=False, quick_designs=64, thorough_designs=64, quick_runs=16000, thorough_runs=600000, quick_budget=120, thorough_budget=1800, thorough_batches=24,
                 level="exploration",
                 rule="one batch = N seeded design specs (1-3 services x 1-4 methods; payload attributes of every primitive kind, arrays, maps, inline objects, named types, aliases, "
                      "required/default, every validation keyword, mapped to path/query/header/cookie/body) fed to goa through its public DSL, generated, compiled and linked into one binary; "
